@@ -48,7 +48,8 @@ Step ==
   /\ l' = l + 1
   /\ IF Line.act.a = "reset" THEN Reset
      ELSE IF Line.act.a = "end" THEN
-          /\ M' = MonStep(M, Scen(S), [t |-> 0, inv |-> FALSE, fin |-> FALSE, cl |-> Line.obs.cl, got |-> Line.obs.got,
+          \* a run that was given up after a timeout (hung) allows no conclusion: the end clauses are skipped
+          /\ M' = IF Line.act.hung THEN M ELSE MonStep(M, Scen(S), [t |-> 0, inv |-> FALSE, fin |-> FALSE, cl |-> Line.obs.cl, got |-> Line.obs.got,
                                        panic |-> Line.obs.panic, end |-> TRUE, dead |-> Line.act.dead])
           /\ last' = [a |-> "end"]
           /\ UNCHANGED <<S, SS, div>>
